@@ -606,3 +606,121 @@ Definition history_obs (N : Z) (p0 : peer) (negs : list negout) (evs : list even
   let '(o, w1) := part_obs N (world0 N p0) negs evs in
   let '(os, w2) := more_obs N w1 more in
   (b2 (h_safe (w_h w1)) :: b2 (h_needs (w_h w1)) :: o) ++ os ++ world_obs (if close then close_world w2 else w2).
+
+(* ================================================================== one layer down: the shared dongle
+   radiodriver._SharedRadio.run (one thread per dongle, serving the command queue of all _SharedRadioInstance
+   objects) on top of crazyradio.Crazyradio (which remembers current_channel / current_address /
+   current_datarate and sends a vendor request only when the value changes).
+     SEND_PACKET   (channel, address, datarate, data): set_channel; set_address; set_data_rate; send_packet
+     SCAN_CHANNELS (datarate, address, start, stop, packet): set_data_rate; set_address; Crazyradio.scan_channels
+                   = for i in start..stop: set_channel(i); send_packet(packet)        (PC-driven scan)
+     SCAN_SELECTED (datarate, address, selected, data): set_data_rate; set_address; Crazyradio.scan_selected
+                   = for s in selected: set_channel(s.channel); set_data_rate(s.datarate); send_packet(data)
+     SET_ARC, STOP: no tuning.  Re-opening after the last STOP makes a new Crazyradio (CReset). *)
+Record setting := mkSet { s_ch : Z; s_dr : Z; s_addr : list Z }.
+
+Record dongle := mkDongle {
+  d_hw : setting;                 (* what the radio hardware is tuned to *)
+  d_cch : option Z;               (* Crazyradio.current_channel *)
+  d_cdr : option Z;               (* Crazyradio.current_datarate *)
+  d_caddr : option (list Z)       (* Crazyradio.current_address *)
+}.
+
+Definition oz_eqb (o : option Z) (z : Z) : bool := match o with Some x => x =? z | None => false end.
+Definition ol_eqb (o : option (list Z)) (l : list Z) : bool :=
+  match o with Some x => zlist_eqb x l | None => false end.
+
+Definition cr_set_channel (c : Z) (d : dongle) : dongle :=
+  if oz_eqb (d_cch d) c then d
+  else mkDongle (mkSet c (s_dr (d_hw d)) (s_addr (d_hw d))) (Some c) (d_cdr d) (d_caddr d).
+Definition cr_set_data_rate (r : Z) (d : dongle) : dongle :=
+  if oz_eqb (d_cdr d) r then d
+  else mkDongle (mkSet (s_ch (d_hw d)) r (s_addr (d_hw d))) (d_cch d) (Some r) (d_caddr d).
+Definition cr_set_address (a : list Z) (d : dongle) : dongle :=
+  if ol_eqb (d_caddr d) a then d
+  else mkDongle (mkSet (s_ch (d_hw d)) (s_dr (d_hw d)) a) (d_cch d) (d_cdr d) (Some a).
+
+(* Crazyradio.__init__: set_data_rate(DR_2MPS = 2); set_channel(2); ... set_address((0xE7,)*5) *)
+Definition dongle0 : dongle := mkDongle (mkSet 2 2 [231; 231; 231; 231; 231]) (Some 2) (Some 2) (Some [231; 231; 231; 231; 231]).
+
+Inductive rcmd :=
+| CSend (inst : Z) (s : setting) (pk : frame)
+| CScanChannels (inst : Z) (dr : Z) (addr : list Z) (start : Z) (count : nat) (pk : frame)
+| CScanSelected (inst : Z) (dr : Z) (addr : list Z) (sel : list (Z * Z)) (pk : frame)   (* (channel, datarate) *)
+| CSetArc (inst : Z) (arc : Z)
+| CStop (inst : Z)
+| CReset.
+
+(* one packet on the air: what the hardware was tuned to, the bytes, and for a SEND_PACKET who asked for what *)
+Record airtx := mkAir { x_hw : setting; x_pk : frame; x_req : option (Z * setting) }.
+
+Fixpoint scan_channels_loop (start : Z) (n : nat) (pk : frame) (d : dongle) : list airtx * dongle :=
+  match n with
+  | O => ([], d)
+  | S k => let d1 := cr_set_channel start d in
+           let '(l, d2) := scan_channels_loop (start + 1) k pk d1 in
+           (mkAir (d_hw d1) pk None :: l, d2)
+  end.
+
+Fixpoint scan_selected_loop (sel : list (Z * Z)) (pk : frame) (d : dongle) : list airtx * dongle :=
+  match sel with
+  | [] => ([], d)
+  | (c, r) :: t => let d1 := cr_set_data_rate r (cr_set_channel c d) in
+                   let '(l, d2) := scan_selected_loop t pk d1 in
+                   (mkAir (d_hw d1) pk None :: l, d2)
+  end.
+
+Definition rstep (c : rcmd) (d : dongle) : list airtx * dongle :=
+  match c with
+  | CSend i s pk =>
+      let d1 := cr_set_data_rate (s_dr s) (cr_set_address (s_addr s) (cr_set_channel (s_ch s) d)) in
+      ([mkAir (d_hw d1) pk (Some (i, s))], d1)
+  | CScanChannels _ dr addr start n pk => scan_channels_loop start n pk (cr_set_address addr (cr_set_data_rate dr d))
+  | CScanSelected _ dr addr sel pk => scan_selected_loop sel pk (cr_set_address addr (cr_set_data_rate dr d))
+  | CSetArc _ _ => ([], d)
+  | CStop _ => ([], d)
+  | CReset => ([], dongle0)
+  end.
+
+Fixpoint rexec (cs : list rcmd) (d : dongle) : list airtx * dongle :=
+  match cs with
+  | [] => ([], d)
+  | c :: t => let '(l, d1) := rstep c d in let '(l2, d2) := rexec t d1 in (l ++ l2, d2)
+  end.
+
+(* Crazyradio's memory agrees with the hardware *)
+Definition coherent (d : dongle) : Prop :=
+  (forall c, d_cch d = Some c -> s_ch (d_hw d) = c) /\ (forall r, d_cdr d = Some r -> s_dr (d_hw d) = r)
+  /\ (forall a, d_caddr d = Some a -> s_addr (d_hw d) = a).
+
+(* every SEND_PACKET went out with the dongle tuned to what that instance asked for *)
+Definition sends_tuned (l : list airtx) : Prop :=
+  Forall (fun x => match x_req x with Some (_, s) => x_hw x = s | None => True end) l.
+
+(* ---- the variant that remembers "(instance, setting) last set up" above Crazyradio and skips the three
+        set_* calls when the next SEND_PACKET carries the same tuple; the scan branches do not touch that memory
+        (what seeded/C01-f does): NOT correct, see C01_cached_tuning_refuted ---- *)
+Definition setting_eqb (a b : setting) : bool :=
+  (s_ch a =? s_ch b) && (s_dr a =? s_dr b) && zlist_eqb (s_addr a) (s_addr b).
+
+Definition rstep_cached (c : rcmd) (st : dongle * option (Z * setting)) : list airtx * (dongle * option (Z * setting)) :=
+  let '(d, act) := st in
+  match c with
+  | CSend i s pk =>
+      let same := match act with Some (j, t) => (i =? j) && setting_eqb s t | None => false end in
+      if same then ([mkAir (d_hw d) pk (Some (i, s))], (d, act))
+      else let '(l, d1) := rstep c d in (l, (d1, Some (i, s)))
+  | CReset => ([], (dongle0, None))
+  | _ => let '(l, d1) := rstep c d in (l, (d1, act))
+  end.
+
+Fixpoint rexec_cached (cs : list rcmd) (st : dongle * option (Z * setting)) : list airtx :=
+  match cs with
+  | [] => []
+  | c :: t => let '(l, st1) := rstep_cached c st in l ++ rexec_cached t st1
+  end.
+
+(* observation for the tie: per packet on the air channel, datarate, address, bytes *)
+Definition air_obs (l : list airtx) : list Z :=
+  concat (map (fun x => [s_ch (x_hw x); s_dr (x_hw x)] ++ (Z.of_nat (length (s_addr (x_hw x))) :: s_addr (x_hw x))
+                        ++ (Z.of_nat (length (x_pk x)) :: x_pk x)) l).
